@@ -28,8 +28,10 @@ def run(tier, seed):
     if not r.ok:
         raise common.ToolError("TLC: Quorum assumptions failed on the specification:\n" + r.out[-1500:])
     cases = r.printed("CASE")
-    if len(cases) != maxn:
-        raise common.ToolError(f"expected {maxn} table rows, got {len(cases)}")
+    nrows = len([c for c in cases if c.get("kind") != "committee"])
+    ncomm = len(cases) - nrows
+    if nrows != maxn or ncomm == 0:
+        raise common.ToolError(f"expected {maxn} table rows and a committee table, got {nrows} / {ncomm}")
     cases_path = os.path.join(d, "cases.ndjson")
     common.write_ndjson(cases_path, cases)
     # 3. real code
@@ -54,7 +56,7 @@ def run(tier, seed):
                 "checks on; distinct = distinct n" % (maxn, extra),
         "samples": rep["samples"],
         "exhaustive": False,
-        "tlc_table_rows": maxn,
+        "tlc_table_rows": maxn, "committee_table_rows": ncomm,
     }
     common.write_evidence(PROP, tier, seed, "proof", cov,
                           ["TLA+ integers are unbounded; 64-bit safety follows from Bounded(n): all intermediates lie in 0..n",
